@@ -85,7 +85,9 @@ class DZero(DataInstruction):
     syntax = Syntax([".", "zero", " ", v])
 
     def encode(self):
-        return bytes([0] * self.v)
+        if self.v < 0:
+            raise ValueError(f"Cannot reserve {self.v} bytes")
+        return bytes(self.v)
 
 
 @data_isa.register_relocation
@@ -173,4 +175,6 @@ class Ds(DataInstruction):
     syntax = Syntax(["ds", " ", v])
 
     def encode(self):
-        return bytes([0] * self.v)
+        if self.v < 0:
+            raise ValueError(f"Cannot reserve {self.v} bytes")
+        return bytes(self.v)
